@@ -140,7 +140,15 @@ def walker_rule(ctx: Ctx, rid: str, only: tuple = ()) -> None:
                     return _NONE
                 return None
 
-            it = Interp(prog, f.cls, lambda *_: None, call_model, max_depth=8, max_traces=64)
+            def atom(it, e_, env_):
+                # class reflection spelled as attributes: the model classes sit directly below object
+                if isinstance(e_, ast.Attribute) and e_.attr in ("__bases__", "__mro__"):
+                    v_ = it.ev(e_.value, env_, 9)
+                    if isinstance(v_, TypeV) and v_.kind in ("class", "builtin"):
+                        return [BUILTIN_TYPES["object"]] if e_.attr == "__bases__" else [v_, BUILTIN_TYPES["object"]]
+                return None
+
+            it = Interp(prog, f.cls, atom, call_model, max_depth=8, max_traces=64)
             it.allow_recursion = True
             env: dict = {"self": Sym("self"), "self.all_nodes": set(), "self.considered_subtypes": [],
                          "self.alternatives": {}, "self.terminals": set(), "self.non_terminals": set(), "self.starting_symbol": PROD}
